@@ -25,9 +25,13 @@ res = subprocess.run(["flock", "/tmp/repo.lock", "/verif/devtools/try_seed.sh", 
 result = ([l for l in res.splitlines() if l.startswith("RESULT")] + ["RESULT none"])[0]
 d = os.path.join("/verif/seeded", name)
 os.makedirs(d, exist_ok=True)
-shutil.copy(os.path.join(src, "patch.diff"), d)
-if demo:
+if os.path.realpath(src) != os.path.realpath(d):
+    shutil.copy(os.path.join(src, "patch.diff"), d)
+if demo and os.path.realpath(demo) != os.path.realpath(os.path.join(d, "demo_test.go")):
     shutil.copy(demo, os.path.join(d, "demo_test.go"))
+prev = {k: meta[k] for k in ("check_result", "caught", "caught_with_concrete_replay") if k in meta}
+if prev and "history" not in meta:
+    meta["history"] = [dict(prev, note="first run, before the check was strengthened")]
 meta.update({"property": prop, "demo_pkg_dir": pkg, "demo_run_pattern": pat,
              "confirmed": verdict + " (devtools/confirm_seed.sh: scratch worktree of /repo HEAD; patch applies, builds, full suite, demo with / without the patch)",
              "confirmed_ok": ok,
